@@ -145,7 +145,7 @@ class Canon:
 
     def is_spin(self, text):
         """the call result makes the caller sleep and retry: it cannot progress until somebody else moves"""
-        return text in ("fstat static init",) or bool(re.match(r"fstat dyn\d+ (zero|init)$", text))
+        return text in ("fstat static init",) or bool(re.match(r"(fstat dyn\d+ (zero|init)|shm_open dyn\d+ ENOENT)$", text))
 
 
 class Scenario:
